@@ -281,7 +281,7 @@ func directedGroup() [][]grpStep {
 	// registrations from their own goroutines racing with the parent's cancellation and StopAndWait: the driver gives up the
 	// processor 0-3 times in between, so that (under schedule perturbation) a registration is caught in its middle
 	for y := 0; y <= 3; y++ {
-		for rep := 0; rep < 6; rep++ {
+		for rep := 0; rep < envInt("VH_RACE_REPS", 60); rep++ {
 			out = append(out, []grpStep{{A: "reg", K: 1, Kind: "do", Iv: 10, NoQ: true, Async: true, Y: y}, {A: "reg", K: 2, Kind: "do", Iv: 10, NoQ: true, Async: true, Y: y},
 				{A: "cancelparent", NoQ: true, Y: y % 2}, {A: "stopwait"}, {A: "adv", D: 5}})
 		}
